@@ -1,34 +1,50 @@
 ------------------------------ MODULE TraceBase ------------------------------
 (* Shared plumbing of every trace specification (impl -> spec direction).    *)
-(*   Rec    the recorded ndjson trace (env TRACE), one record per event       *)
-(*   l      index of the next event to explain                                *)
-(*   sid    id of the script (behaviour) the current events belong to         *)
-(*   used   names of known-deviation actions needed so far in this script     *)
-(* Acceptance: every step consumes exactly one event, so the BFS depth of a   *)
-(* state is l; the POSTCONDITION prints the diameter reached and the          *)
-(* orchestrator compares it with Len(Rec)+1 and reads the first unexplained   *)
-(* event from it.  At each "reset" event the deviations used by the script    *)
-(* just finished are printed (the orchestrator keeps the smallest set).       *)
+(*   Rec     the recorded ndjson trace (env TRACE), one record per event      *)
+(*   l       index of the next event to explain                               *)
+(*   sid     id of the script (behaviour) the current events belong to        *)
+(*   used    names of known-deviation actions needed so far in this script    *)
+(*   failed  TRUE once an event of the current script could not be explained  *)
+(*           (only if the trace spec includes a T_Fail action, see below)     *)
+(* Every step consumes exactly one event, so the BFS depth of a state is l.   *)
+(* At each "reset" event the deviations used by the script just finished are  *)
+(* printed from every non-failed state (the orchestrator keeps the smallest   *)
+(* set): a script is ACCEPTED iff such a USED line exists for it.             *)
+(* A trace spec may add   T_Fail == FailBook /\ <model variables reset>       *)
+(* to its next-state relation: it consumes any non-reset event, remembers the *)
+(* failure and skips to the next reset, so that one TLC run judges every      *)
+(* script of a batch even when some are rejected (failed states of one event  *)
+(* index coincide, so the search stays linear).  The furthest FAILED line of  *)
+(* a script without USED line names its first unexplained event.  Without     *)
+(* T_Fail, TLC stops at the first unexplained event and the POSTCONDITION     *)
+(* prints the depth reached.                                                  *)
 EXTENDS Naturals, Sequences, TLC, Json, IOUtils
 
 CONSTANT OpenKF      \* set of names of deviation actions that are open known findings
 
-VARIABLES l, sid, used
-tbvars == <<l, sid, used>>
+VARIABLES l, sid, used, failed
+tbvars == <<l, sid, used, failed>>
 
 Rec == ndJsonDeserialize(IOEnv.TRACE)
 
 Ev == Rec[l]
-IsEv(name) == l <= Len(Rec) /\ Rec[l].ev = name /\ l' = l + 1
-Same == sid' = sid /\ used' = used
-KF(name) == name \in OpenKF /\ sid' = sid /\ used' = used \cup {name}
+IsEv(name) == ~failed /\ l <= Len(Rec) /\ Rec[l].ev = name /\ l' = l + 1
+Same == sid' = sid /\ used' = used /\ failed' = FALSE
+KF(name) == name \in OpenKF /\ sid' = sid /\ used' = used \cup {name} /\ failed' = FALSE
 
-TBInit == l = 1 /\ sid = "" /\ used = {}
+\* several deviations (possibly none) needed by one step
+KFs(S) == S \subseteq OpenKF /\ sid' = sid /\ used' = used \cup S /\ failed' = FALSE
+
+TBInit == l = 1 /\ sid = "" /\ used = {} /\ failed = FALSE
 \* a "reset" event starts the next script; it reports what the finished one needed
-ResetBook == /\ IsEv("reset")
-             /\ PrintT(<<"USED", sid, used>>)
+ResetBook == /\ l <= Len(Rec) /\ Rec[l].ev = "reset" /\ l' = l + 1
+             /\ IF failed THEN TRUE ELSE PrintT(<<"USED", sid, used>>)
              /\ sid' = Rec[l].sid
              /\ used' = {}
+             /\ failed' = FALSE
+FailBook == /\ l <= Len(Rec) /\ Rec[l].ev # "reset" /\ l' = l + 1
+            /\ IF failed THEN TRUE ELSE PrintT(<<"FAILED", sid, l>>)
+            /\ failed' = TRUE /\ sid' = sid /\ used' = {}
 
 Post == PrintT(<<"TRACE_RESULT", TLCGet("stats").diameter, Len(Rec)>>)
 =============================================================================
